@@ -65,7 +65,44 @@ fn rand_leaf_shape(rng: &mut Rng, layers: &[i16]) -> (GdsElement, LeafShape) {
     let layer = *rng.pick(layers);
     let dtype = rng.range(0, 2) as i16;
     let o = (rng.range(-2000, 2000), rng.range(-2000, 2000));
-    match rng.below(5) {
+    match rng.below(7) {
+        5 => {
+            // four-vertex near-rectangle: a rectangle with one corner slid along a side (right trapezoid), any start vertex, either direction
+            let (w, h) = (rng.range(2, 300), rng.range(2, 300));
+            let mut q = vec![o, (o.0 + w, o.1), (o.0 + w, o.1 + h), (o.0, o.1 + h)];
+            let k = rng.usize(4);
+            if rng.bool() {
+                q[k].0 = o.0 + rng.range(1, w - 1);
+            } else {
+                q[k].1 = o.1 + rng.range(1, h - 1);
+            }
+            q.rotate_left(rng.usize(4));
+            if rng.bool() {
+                q.reverse();
+            }
+            (GdsBoundary { layer, datatype: dtype, xy: closed(&q), ..Default::default() }.into(), LeafShape { layer, dtype, geo: Geo::Poly(q) })
+        }
+        6 => {
+            // 45-degree and general simple polygons
+            let poly: Vec<P> = loop {
+                if rng.bool() {
+                    let nc = 2 + rng.usize(6);
+                    if let Some(b) = polyomino_outline(rng, nc, false) {
+                        let c = chamfer45(&b);
+                        if crate::refs::geom::is_simple(&c) {
+                            break dress(rng, &c, 12, 0);
+                        }
+                    }
+                } else {
+                    let nv = 3 + rng.usize(7);
+                    if let Some(b) = star_polygon(rng, nv, 150, (0, 0)) {
+                        break b;
+                    }
+                }
+            };
+            let poly: Vec<P> = poly.iter().map(|p| (p.0 + o.0, p.1 + o.1)).collect();
+            (GdsBoundary { layer, datatype: dtype, xy: closed(&poly), ..Default::default() }.into(), LeafShape { layer, dtype, geo: Geo::Poly(poly) })
+        }
         0 | 1 => {
             // rectangle as a boundary, clockwise or counter-clockwise, any start corner
             let (w, h) = (rng.range(1, 300), rng.range(1, 300));
